@@ -88,7 +88,7 @@ write data;
 
 type lexer struct {
 	data string
-	p, pe, m int
+	p, pe, m, depth int
 	id, mid string
 }
 
